@@ -8,6 +8,7 @@ import c04
 import c09
 import c11
 import c05
+import c03
 import c12
 import ensemble as ens
 
@@ -15,7 +16,7 @@ PID = "C02"
 
 
 def translate():
-    c04.translate(); c12.translate(); c09.translate(); c11.translate(); c05.translate()
+    c04.translate(); c12.translate(); c09.translate(); c11.translate(); c05.translate(); c03.translate()
 
 
 def validate(run, tier):
@@ -65,6 +66,21 @@ def validate(run, tier):
         run.extra["ensemble"].append(dict(cfg="half-supported", n_particles=npart, logz_err=round(e, 4), se=round(se, 4)))
         if abs(e) > 4 * se + (0.15 if npart == 32 else 0.04):
             run.fail("evidence-biased", f"half-supported target, {R} seeds, {npart} particles: mean log-evidence error {e:+.3f} (se {se:.3f})", **what)
+    # a posterior in the corner of the cube with the coordinates declared periodic / reflective: both kernels
+    for tname, cfg in (("corner_periodic", dict(clustering=False)), ("corner_reflective", dict(clustering=False)),
+                       ("corner_reflective", dict(clustering=False, sample="rwm")))[:2 if tier == "quick" else 3]:
+        npart, Rc = 64, 48
+        res = ens.run_ensemble(tname, cfg, Rc, npart, 7800)
+        what = dict(target=tname, cfg=cfg, runs=Rc, n_particles=npart, seeds="7800..")
+        bad = [r for r in res if not r["ok"]]
+        if bad:
+            run.fail("ensemble-run-raises", f"{len(bad)} of {Rc} runs raised: {bad[0]['err']}", **what)
+            continue
+        run.case(key=("logz", tname, str(cfg)), nontrivial=True)
+        e, se = ens.stats([r["logz"] for r in res], ens.TARGETS[tname]["logz"])
+        run.extra["ensemble"].append(dict(cfg=f"{tname} {cfg}", n_particles=npart, runs=Rc, logz_err=round(e, 4), se=round(se, 4)))
+        if abs(e) > 4 * se + 0.06:
+            run.fail("evidence-biased", f"{tname}, {Rc} seeds, {npart} particles: mean log-evidence error {e:+.3f} (se {se:.3f})", **what)
     # a bimodal target (mode masses 0.3 / 0.7) with clustering: the evidence is the sum over the modes
     for npart, Rb in ((64, 48),) if tier == "quick" else ((64, 96), (256, 96)):
         cfg = dict(clustering=True)
@@ -81,6 +97,31 @@ def validate(run, tier):
             run.fail("evidence-biased", f"bimodal target, {Rb} seeds, {npart} particles: mean log-evidence error {e:+.3f} (se {se:.3f})", **what)
     independence_probe(run)
     run.sample(dict(kind="ensemble", first=run.extra["ensemble"][0]))
+
+
+def exact_history_evidence(run):
+    """A history of exact draws with UNEQUAL batch sizes (as after resuming with another n_particles), each batch with its exact
+    normaliser: the evidence estimate at beta = 1 must be the true evidence within Monte-Carlo error."""
+    from tempest.state_manager import StateManager
+    nr = np.random.RandomState(4711)
+    S = ens.S
+    st = StateManager(2)
+    batches = [(0.25, 2000), (0.6, 500), (1.0, 40000)]
+    for it, (b, n) in enumerate(batches, 1):
+        x = nr.randn(3 * n, 2) * S / math.sqrt(b)
+        x = x[np.all(np.abs(x) < 5.0, axis=1)][:n]
+        st.update_current({"u": (x + 5.0) / 10.0, "x": x, "logl": -0.5 * np.sum(x ** 2, axis=1) / S ** 2, "beta": b,
+                           "logz": math.log(2 * math.pi * S ** 2 / b / 100.0), "iter": it})
+        st.commit_current_to_history()
+    logw, lz = st.compute_logw_and_logz(1.0, normalize=False)
+    w = np.exp(logw - np.max(logw))
+    rel_se = float(np.std(w) / np.mean(w) / math.sqrt(len(w)))
+    true = math.log(2 * math.pi * S ** 2 / 100.0)
+    run.case(key=("exact-history-evidence",), nontrivial=True)
+    run.extra["exact_history_evidence"] = dict(batches=batches, logz=round(float(lz), 5), true=round(true, 5), rel_se=round(rel_se, 5))
+    if abs(float(lz) - true) > 6 * rel_se + 1e-3:
+        run.fail("evidence-biased", f"history of exact draws with batch sizes {[n for _, n in batches]}: log-evidence {float(lz):.4f}, truth {true:.4f} "
+                 f"(relative se {rel_se:.4f})", probe="exact draws, unequal batch sizes", generator="RandomState(4711)")
 
 
 def independence_probe(run):
@@ -142,8 +183,9 @@ def main(tier, seed):
     except Exception as e:  # fail closed: anything the translator cannot digest
         run.obligation("translate:all generated pieces used by C02", False, str(e))
     run.prove("Props/C02.v", link_rels=["Link/MIS.v", "Link/Posterior.v", "Link/Seeding.v"], allowed_axioms=STDLIB_AXIOMS_REALS)
-    run.prove("Props/C02W.v", link_rels=["Link/Warmup.v", "Link/Schedule.v"])
+    run.prove("Props/C02W.v", link_rels=["Link/Warmup.v", "Link/Schedule.v", "Link/Kernel.v", "Link/Shift.v"], allowed_axioms=STDLIB_AXIOMS_REALS)
     try:
+        exact_history_evidence(run)
         validate(run, tier)
     except Exception:
         import traceback
